@@ -80,7 +80,7 @@ def judge_wire(ctx, inp, dec, want_fin, want_op, want_payload, key, ret, delta_l
         got = parts[0] if parts else ""
         cause = "not-one-frame"
         if len(parts) == 1:
-            g, e = got.split(":"), exp.split(":")
+            g, e = got.split(":", 6), exp.split(":", 6)
             names = ["fin", "rsv", "opcode", "mask-bit", "key", "length-form", "payload"]
             cause = "wrong-" + next((names[i] for i in range(min(len(g), len(e))) if g[i] != e[i]), "frame")
         ctx.violate("one-wellformed-masked-frame", cause, inp, exp, dec[:300], size=len(want_payload))
